@@ -271,6 +271,28 @@ impl<'a> Dfa<'a> {
     }
 }
 
+#[cfg(grex_verif)]
+impl Dfa<'_> {
+    pub(crate) fn verif_snapshot(&self) -> crate::verif::DfaSnap {
+        use petgraph::visit::{EdgeRef, IntoEdgeReferences};
+        crate::verif::DfaSnap {
+            start: self.initial_state.index(),
+            finals: self.final_state_indices.iter().copied().sorted().collect(),
+            states: self.graph.node_indices().map(|n| n.index()).collect(),
+            edges: (&self.graph)
+                .edge_references()
+                .map(|e| {
+                    (
+                        e.source().index(),
+                        e.target().index(),
+                        crate::verif::GSnap::of(e.weight()),
+                    )
+                })
+                .collect(),
+        }
+    }
+}
+
 #[cfg(test)]
 mod tests {
     use super::*;
